@@ -63,7 +63,7 @@ MOD = {
              "fast_packetParse_eq", "fast_kindParse_eq"],
     "CompoundE2E": ["member_refines", "member_accepted", "compound_end_to_end"],
     "NestedE2E": ["node_image", "tree_refines", "tree_leaves_accepted", "nested_end_to_end"],
-    "Written": ["writeInto_ok_inv", "member_written", "sr_written", "rr_written", "bye_written", "app_written"],
+    "Written": ["writeInto_ok_inv", "member_written", "sr_written", "rr_written", "bye_written", "app_written", "sdes_written", "fb_written"],
     "FastWrite": ["fast_writerVia_eq", "fast_sdesWriter_eq", "fast_chunkWriter_eq", "fast_chunkRun_eq"],
     "EndToEnd": ["fb_nack_end_to_end", "fb_fir_end_to_end", "fb_sli_end_to_end", "fb_rpsi_end_to_end", "fb_pli_end_to_end",
                  "fci_err_truthful", "parseFci_err_truthful", "packet_err_truthful", "packet_pad_transparent",
@@ -84,11 +84,11 @@ OBLIGATIONS = {
                            "nack_entries_eq", "fir_entries_eq", "sli_entries_eq", "tiling_length_le", "sdes_sizes_bounded"] + MOD_FAST,
     "C02": ["sr_written", "rr_written", "writeInto_ok_inv", "rb_roundtrip", "sr_roundtrip", "rr_roundtrip", "rb_refines", "sr_refines", "rr_refines", "written_eq_image",
             "writeInto_ok", "rb_rules", "sr_rules", "rr_rules"],
-    "C03": ["sdes_roundtrip", "refTok_encode", "item_refines", "chunk_refines", "sdes_refines", "written_eq_image",
+    "C03": ["sdes_written", "sdes_roundtrip", "refTok_encode", "item_refines", "chunk_refines", "sdes_refines", "written_eq_image",
             "writeInto_ok", "sdes_rules", "item_rules", "chunk_rules", "item_accessors"] + MOD["FastWrite"],
     "C04": ["bye_written", "app_written", "writeInto_ok_inv", "bye_roundtrip", "app_roundtrip", "bye_refines", "app_refines", "written_eq_image", "writeInto_ok",
             "bye_rules", "app_rules"],
-    "C05": ["fb_roundtrip", "fb_refines", "nack_roundtrip", "fir_roundtrip", "sli_roundtrip", "rpsi_roundtrip",
+    "C05": ["fb_written", "fb_roundtrip", "fb_refines", "nack_roundtrip", "fir_roundtrip", "sli_roundtrip", "rpsi_roundtrip",
             "fir_upsert_lookup", "fir_upsert_keys_unique", "nack_entries_eq", "fir_entries_eq", "sli_entries_eq",
             "rpsi_decode_eq", "pli_parse_ok_iff", "empty_fir_refused", "empty_sli_refused", "fb_rules", "fci_rules",
             "nack_sorted_empty", "nack_sorted_add", "written_eq_image", "writeInto_ok",
